@@ -78,7 +78,7 @@ def describe(rec, clause):
         "poly": ("coef", "roots", "got", "exact", "outcome", "raw"),
         "matrix": ("n", "M", "aux", "det", "inv", "svdRecon", "svdOrtho", "svdSorted", "svdP", "eig", "char", "rot",
                    "rotOrtho", "rotDet", "panic", "raw"),
-        "linsolve": ("A", "X", "B", "got", "exact", "resid", "tolOK", "outcome", "panic", "raw"),
+        "linsolve": ("A", "X", "B", "got", "exact", "resid", "tolOK", "maxIt", "outcome", "panic", "raw"),
         "search": ("lo", "hi", "stops", "rec", "iters", "q", "sense", "obj", "vals", "retCell", "retVal", "repVal",
                    "outcome", "raw"),
         "angle": ("k", "canon", "canonEx", "inRange", "raw"),
@@ -92,11 +92,11 @@ def describe(rec, clause):
     return "%s: clause %s: %s" % (rec["site"], clause, json.dumps(small)[:600])
 
 
-def stage(ctx, name, kind, size, level, sample=None, workers=8):
-    g = ctx.tlc("G-" + name, "kernels/KernelGen", GEN % (kind, size, level, ctx.seed % 1000), workers=workers, timeout=900,
+def compute(ctx, name, kind, size, level, sample=None):
+    """generate -> run the real code -> judge for one family (runs in a worker thread; no ctx bookkeeping here)"""
+    g = ctx.tlc("G-" + name, "kernels/KernelGen", GEN % (kind, size, level, ctx.seed % 1000), workers=4, timeout=900,
                 tags=("CASE",))
     ctx.require_clean(g, "G-" + name)
-    ctx.add_tlc_counts(g)
     cases = sorted({c[1] for c in g.tagged("CASE")})
     total = len(cases)
     if not cases:
@@ -113,17 +113,24 @@ def stage(ctx, name, kind, size, level, sample=None, workers=8):
     ctx.drv(["c17-kernels", "in=" + cpath, "out=" + rpath, "stats=" + spath, "kind=" + kind, "seed=%d" % ctx.seed],
             timeout=1500)
     stats = json.load(open(spath))
-    j = ctx.tlc("J-" + name, "kernels/KernelJudge", JUDGE, data={"records.ndjson": rpath}, workers=16, timeout=3000,
+    j = ctx.tlc("J-" + name, "kernels/KernelJudge", JUDGE, data={"records.ndjson": rpath}, workers=8, timeout=3000,
                 heap="8g")
     ctx.require_clean(j, "J-" + name)
-    ctx.add_tlc_counts(j)
     if j.distinct != 2 * stats["records"]:
         raise Infra("judge examined %d states for %d records" % (j.distinct, stats["records"]))
-    rejects = j.tagged("REJECT")
+    return {"name": name, "g": g, "j": j, "cases": cases, "total": total, "rpath": rpath, "stats": stats}
+
+
+def report(ctx, res):
+    """bookkeeping and verdicts of one family (main thread, fixed order)"""
+    name, stats, cases = res["name"], res["stats"], res["cases"]
+    ctx.add_tlc_counts(res["g"])
+    ctx.add_tlc_counts(res["j"])
+    rejects = res["j"].tagged("REJECT")
     observed = {}
     nrej = 0
     if rejects:
-        recs = {r["id"]: r for r in vlib.read_ndjson(rpath)}
+        recs = {r["id"]: r for r in vlib.read_ndjson(res["rpath"])}
         # the smallest failing record of a key becomes its representative (replay file)
         rejects = sorted(rejects, key=lambda x: (len(json.dumps(recs[x[1]])), x[1]))
         for (_, rid, _l, clause) in rejects:
@@ -139,12 +146,16 @@ def stage(ctx, name, kind, size, level, sample=None, workers=8):
     ctx.counts["traces_validated_against_impl"] += stats["records"]
     ctx.counts["evaluations"] += stats.get("evaluations", stats["records"])
     ctx.counts["distinct_nontrivial"] += stats["records"]
-    ctx.stage(name, kind="R+V", generated=total, used=len(cases), records=stats["records"], rejected=nrej,
+    ctx.stage(name, kind="R+V", generated=res["total"], used=len(cases), records=stats["records"], rejected=nrej,
               observed_not_enforced=observed,
               sites={k[5:]: v for k, v in stats.items() if k.startswith("site:")},
               outcomes={k[8:]: v for k, v in stats.items() if k.startswith("outcome:")})
     if len(ctx.samples) < 7:
         ctx.samples.append({name: json.loads(cases[len(cases) // 2])})
+
+
+def stage(ctx, name, kind, size, level, sample=None):
+    report(ctx, compute(ctx, name, kind, size, level, sample))
 
 
 def run(ctx):
@@ -159,14 +170,17 @@ def run(ctx):
                 "1..7 and 8..16 x 11 control polygons x every parameter k/4 (k/2); polyline: every axis-parallel "
                 "polyline with <= 3 (4) segments of length <= 3 (4), every integer arc position; non-trivial = every record")
     ctx.assumptions = [
-        "well-conditioned = simple real roots (polynomials), distinct singular values (4x4 SVD; decided by a modular "
-        "squarefree test of the characteristic polynomial of M^T M); for repeated roots only 'every reported value is "
-        "within 1e-2 of a real root' is checked, for a 4x4 matrix with a repeated singular value only reconstruction "
-        "within 1e-3 (the library's own test accepts 1e-4 there)",
+        "well-conditioned = simple real roots (polynomials); non-singular with distinct singular values (SVD; decided "
+        "by a modular squarefree test of the characteristic polynomial of M^T M); for repeated roots only 'every "
+        "reported value is within 1e-2 of a real root' is checked; a matrix with a zero or repeated singular value must "
+        "be reconstructed within 1e-6 (2x2, 3x3) or 1e-3 (4x4; the library's own test accepts 1e-4 there)",
         "tolerances: 1e-6 wherever the exact answer is an integer (roots, solutions, inverse * det, dyadic Bezier "
-        "points, arc positions); 1e-9 for M * M^-1 = I, U S V^T = M, orthonormality and rotations; BiCGSTAB is run with "
-        "MAETolerance = 1e-10 and no iteration limit, and must meet that tolerance",
-        "BiCGSTAB: the right-hand side is non-zero (b = 0 makes the first step 0/0 and the solver panics 'NaN detected')",
+        "points, arc positions); 1e-9 for M * M^-1 = I, U S V^T = M, orthonormality and rotations (1e-6 for the 4x4 SVD, which uses a "
+        "numerical quartic root and a random basis completion); BiCGSTAB is run with "
+        "MAETolerance = 1e-10 and must meet that tolerance on SPD systems",
+        "BiCGSTAB: the right-hand side is non-zero (b = 0 makes the first step 0/0 and the solver panics 'NaN detected'); "
+        "convergence is only demanded for symmetric positive definite systems (no breakdown possible); non-symmetric "
+        "systems run with an iteration limit and only an answer that meets the tolerance is compared with the solution",
         "search objectives are integer-valued and piecewise constant (g(floor(q x))), so comparisons are exact; GSS is "
         "only given unimodal objectives, as documented",
         "JoinedCurve is checked against its documented parameterisation (equal share of t per sub-curve), not arc "
@@ -176,11 +190,14 @@ def run(ctx):
         "monotonically traversed control polygons of integer length with tol = 1e-6",
     ]
     ctx.build_harness()
-    stage(ctx, "poly", "poly", 3 if quick else 5, lvl)
-    stage(ctx, "matrix", "matrix", 0, lvl)
-    stage(ctx, "linsolve", "linsolve", 4 if quick else 6, lvl)
-    stage(ctx, "search", "search", 0, lvl)
-    stage(ctx, "angle", "angle", 60 if quick else 96, lvl)
-    stage(ctx, "bezier", "bezier", 16, lvl)
-    stage(ctx, "polyline", "polyline", 3 if quick else 4, lvl)
+    plan = [("poly", "poly", 3 if quick else 5), ("matrix", "matrix", 0), ("linsolve", "linsolve", 4 if quick else 6),
+            ("search", "search", 0), ("angle", "angle", 60 if quick else 96), ("bezier", "bezier", 16),
+            ("polyline", "polyline", 3 if quick else 4)]
+    # the families are independent: generate / run / judge them concurrently, report in the fixed order
+    from concurrent.futures import ThreadPoolExecutor
+    with ThreadPoolExecutor(max_workers=4 if quick else 3) as pool:
+        futs = [pool.submit(compute, ctx, name, kind, size, lvl) for (name, kind, size) in plan]
+        results = [f.result() for f in futs]
+    for res in results:
+        report(ctx, res)
     ctx.extra["exhaustive"] = True
